@@ -10,6 +10,11 @@ LAB = "./internal/zzverif/lab"
 H2 = "./internal/martian/h2"
 
 CHECKS = {
+    "C11": {
+        "runs": [
+            R(LAB, "^TestC11Shutdown", {"checks": 60, "timeout": 900}, {"checks": 300, "shards": 16, "timeout": 3000}, race=True),
+        ],
+    },
     "C09": {
         "runs": [
             R(H2, "^TestC09Flow", {"checks": 400, "timeout": 900}, {"checks": 2000, "shards": 16, "timeout": 3000}, race=True),
@@ -106,6 +111,9 @@ CHECKS = {
 LEVELS = {"C12": "fault_enumeration"}  # default: exploration
 
 RULES = {
+    "C11": "two harnesses: a bare martian.Proxy whose Shutdown(ctx)/Close are called directly, and forwarder's HTTPProxy.Run whose context is cancelled (listener close, drain with ShutdownTimeout, forced close). rapid draws 1-8 connections, each brought into a phase before shutdown begins: connected-idle, idle after one exchange, half a request head sent, request held at the origin (gate), response head and half the body relayed (gate), CONNECT tunnel open; a deadline of 150/400/1200 ms; and a sequence of actions executed while shutdown runs: release gate i, client i sends a new request, client i disconnects, a new client connects and sends a request, echo through tunnel i, short sleeps. "
+           "Oracle: every exchange whose request had reached its origin completes with exactly the scripted response and - if its head was written during shutdown - the connection is then closed; requests first sent after shutdown began are neither forwarded (origin log) nor answered and their connections are closed; connections accepted meanwhile get no service; open tunnels keep relaying; Shutdown returning nil implies every client socket is at EOF, returning an error implies it equals ctx.Err() and not before the deadline; after Close (bare) / after Run returned (forwarder) every socket is closed; Serve returns; listener_cx_active is 0. "
+           "Non-trivial = at least two different phases incl. an in-flight exchange. Distinct = distinct cases.",
     "C09": "in-module harness around h2.Config.Proxy: the client side is a pipe carrying a raw http2.Framer, the server side a TLS listener (ALPN h2) speaking raw frames; reader goroutines keep ledgers, one scheduler executes the generated schedule step by step (the harness owns the order of all endpoint actions). rapid draws initial SETTINGS of both sides (initial windows 1000..70000, max frame 16384..65536) and 3-40 steps over 1-4 streams in both directions: DATA (0, 1, 100, 1000, 16383-16385, 30000, 65535 octets; optional padding 0..255; END_STREAM), HEADERS (with CONTINUATION, priority, padding), WINDOW_UPDATE on stream / connection (1..200000), SETTINGS changing INITIAL_WINDOW_SIZE up and down (down while the relay holds queued DATA), MAX_FRAME_SIZE and HEADER_TABLE_SIZE, RST_STREAM, PING, PRIORITY, PUSH_PROMISE, PING round trips. "
            "Senders are conforming (they wait for credit, which the relay must return). Oracle: receiver ledger per stream and connection - flow-controlled octets received never exceed initial window in force + own WINDOW_UPDATEs; a lowered window / frame size becomes the strict bound when a barrier marker (HEADERS on a fresh stream sent by the other endpoint after it saw the forwarded SETTINGS) arrives, until then max(old,new); no frame larger than MAX_FRAME_SIZE in force; sender ledger - at the end the WINDOW_UPDATE increments returned on every stream and on the connection equal the flow-controlled octets sent (payload + padding + pad length); a conforming sender is never starved. "
            "Non-trivial = padding, a SETTINGS change, CONTINUATION, >= 2 interleaved streams or an initial window below 65535. Distinct = distinct schedules.",
@@ -168,6 +176,9 @@ RULES = {
 }
 
 ASSUMPTIONS = {
+    "C11": ["'shutdown has begun' has no black-box signal while Shutdown runs (it holds the connection table's lock): the harness waits 40 ms after calling Shutdown (bare) / 50 ms after dials are refused (forwarder); clauses depending on it must fail twice in a row",
+            "a response whose head was already written when shutdown began is not required to close its connection (it cannot announce it any more)",
+            "placements relative to TLS / PROXY handshakes are covered by C15's listener stackings, not here"],
     "C09": ["the h2 relay is not reachable through forwarder's public configuration; it is driven in-module through h2.Config.Proxy exactly as handleMITM would",
             "endpoint actions are totally ordered by the scheduler; only the relay's internal goroutine interleaving is left to the Go scheduler",
             "DATA larger than the receiver's frame size is never sent by the conforming senders, so the relay's own DATA splitting is exercised only through SETTINGS races"],
@@ -225,6 +236,11 @@ ASSUMPTIONS = {
 # MANIFEST texts
 
 META = {
+    "C11": {
+        "technique": "property-based testing (rapid) over generated connection-phase populations and action sequences during shutdown; history invariants on client sockets, origin log, Shutdown's return value and the connection gauge; race detector in thorough",
+        "text": "Each case freezes several connections in different phases with origin-side gates, starts shutdown, then performs generated client actions; the invariants of the property are checked on what clients and the origin observe. 60 cases quick, 4800 under -race thorough. Verified against 6 mutants (post-read closing check, Connection: close while closing, Shutdown not waiting, Close not closing, registration without count).",
+        "note": "Timing of Shutdown relative to the proxy's internal goroutines is sampled, not enumerated.",
+    },
     "C09": {
         "technique": "model-based property testing (rapid) of the h2 relay with harness-owned frame schedules; invariant oracle = receiver-side credit ledger with SETTINGS barriers and sender-side credit-return ledger",
         "text": "Generated frame schedules with small windows force blocking, unblocking and SETTINGS changes while data is queued; every DATA arrival is checked against the credit granted, every frame against the frame-size limit, and at quiescence all credit must have been returned. 400 schedules quick, 32000 under -race thorough. 7 flow-control mutants verified.",
